@@ -123,7 +123,7 @@ CLAIMS["C04"] = dict(
           "limit, InterleavedFrame.Unmarshal yields channel 0..255 and payload <= 65535 in a new buffer, Request/Response.Unmarshal bound method, "
           "status message and body, Conn.Read dispatches without panic, and none of these functions can index, slice or allocate out of range. "
           "InterleavedFrame.MarshalTo writes the 4-byte header and the payload exactly as specified when the buffer has 4+len(Payload) bytes."
-          + B + "messages written with Conn.Write* come back from Conn.Read as the same sequence however the stream is split into reads (578 runs), and bytes written through the base64 tunnel encoding come back unchanged however the encoded stream is split (2366 runs)."),
+          + B + "messages written with Conn.Write* come back from Conn.Read as the same sequence however the stream is split into reads (680 runs), and bytes written through the base64 tunnel encoding come back unchanged however the encoded stream is split (2366 runs)."),
     note=TRUST + "bufio.Reader, io.ReadFull and io.Reader.Read are assumed contracts (Peek returns exactly n bytes; reads may change every bufio.Reader and every byte array). Independence from how the stream is split into reads, the tunnel and whole-message round trips are decided only on the bounded grid (not proved).",
     design="DESIGN.md section 4, C04",
 )
